@@ -52,6 +52,15 @@ type Inner struct {
 	Y string
 }
 
+// Café: type name, field names and aliases outside ASCII (1-, 2-, 3- and 4-byte characters): the name lengths
+// of the class definition count UTF-16 units like every other string.
+type Café struct {
+	Prénom string
+	Ville  string `hprose:"城市"`
+	Ärger  int    `hprose:"😀s"`
+	Naïve  *Inner
+}
+
 type Embeds struct {
 	Inner
 	Z uint8
@@ -272,7 +281,7 @@ var Specials = []reflect.Type{
 
 // Structs is the static catalogue of named struct types.
 var Structs = []reflect.Type{
-	reflect.TypeOf(Plain{}), reflect.TypeOf(Tagged{}), reflect.TypeOf(Inner{}), reflect.TypeOf(Embeds{}),
+	reflect.TypeOf(Plain{}), reflect.TypeOf(Tagged{}), reflect.TypeOf(Inner{}), reflect.TypeOf(Café{}), reflect.TypeOf(Embeds{}),
 	reflect.TypeOf(EmbedsUnexported{}), reflect.TypeOf(Embeds2{}), reflect.TypeOf(EmbedsMiddle{}), reflect.TypeOf(EmbedsLate{}), reflect.TypeOf(Unexported{}),
 	reflect.TypeOf(OnePtr{}), reflect.TypeOf(OneMap{}), reflect.TypeOf(OneArr{}), reflect.TypeOf(OneSlice{}),
 	reflect.TypeOf(OneIface{}), reflect.TypeOf(OneStruct{}), reflect.TypeOf(OneOne{}), reflect.TypeOf(Zero{}),
